@@ -18,7 +18,8 @@ Inductive op :=
 | OpDeleteRow (i : nat) (key : list (option dnode))          (* Find(list=key).Delete *)
 | OpReplaceKid (i : nat) (src : content)                     (* Find(container).ReplaceFrom(parent view) *)
 | OpReplaceRow (i : nat) (key : list (option dnode)) (row : dnode)   (* Find(list=key).ReplaceFrom(list with one row) *)
-| OpInsertRows (i : nat) (rows : list dnode).                (* Find(list).InsertFrom(list node) *)
+| OpInsertRows (i : nat) (rows : list dnode)                 (* Find(list).InsertFrom(list node) *)
+| OpDeleteRows (i : nat) (ks : list (list (option dnode))).  (* walk the list with First/Next, then Delete each collected entry *)
 
 Definition apply_op (kids : list snode) (tgt : content) (o : op) : res content :=
   match o with
@@ -46,6 +47,12 @@ Definition apply_op (kids : list snode) (tgt : content) (o : op) : res content :
           | Ok d => Ok (set_nth i (Some d) tgt)
           | Err e => Err e
           end
+      | _, _ => Err EOther
+      end
+  | OpDeleteRows i ks =>
+      match nth i kids (SCont (mkMeta [] [] true [] None) []), nth i tgt None with
+      | SList _ keys _, Some (DList rows) =>
+          Ok (set_nth i (Some (DList (fold_left (fun acc k => remove_row keys k acc) ks rows))) tgt)
       | _, _ => Err EOther
       end
   end.
@@ -97,6 +104,12 @@ Definition spec_op (kids : list snode) (tgt : content) (o : op) : res content :=
       | SList _ keys r, Some (DList rows) =>
           Ok (set_nth i (Some (DList (filter (fun x => negb (key_eqb (row_key keys x) key)) rows
                                       ++ [merge_one r row (empty_node r) true]))) tgt)
+      | _, _ => Err EOther
+      end
+  | OpDeleteRows i ks =>
+      match nth i kids (SCont (mkMeta [] [] true [] None) []), nth i tgt None with
+      | SList _ keys _, Some (DList rows) =>
+          Ok (set_nth i (Some (DList (filter (fun r => negb (existsb (fun k => key_eqb (row_key keys r) k) ks)) rows))) tgt)
       | _, _ => Err EOther
       end
   | OpInsertRows i srows =>
